@@ -158,3 +158,91 @@ func TestC06_P_EntityFetch(t *testing.T) {
 		ev.Sample(map[string]any{"entity": kind, "entity_blocks": len(target.Entity), "levels": levels, "access": access, "path": path, "requested": len(log), "fault_runs": nfault, "store_blocks": st.Len()})
 	})
 }
+
+const c06HandRule = "case = hand-assembled well-formed file DAG with 1..7 chunks any of which may be EMPTY (leading / middle / trailing), raw or dag-pb leaves, 2 or 3 levels, accessed by the preload reifier, the preload selector and the entity selector + BytesConsumingMatcher; " +
+	"oracle = every block of the file must be requested (set equality with the independent model) and, with any single block unavailable, the access must fail; non-trivial = a DAG with at least one empty chunk; distinct by (chunk pattern, leaf kind, levels, access)"
+
+// TestC06_P_HandmadeFiles: "every block of the file" includes blocks that hold no bytes.
+func TestC06_P_HandmadeFiles(t *testing.T) {
+	ev := newEvid(t, c06HandRule)
+	rapid.Check(t, func(t *rapid.T) {
+		fc := genHandFileDAG(t)
+		access := rapid.SampledFrom([]string{"reifier", "preload-selector", "entity-selector"}).Draw(t, "access")
+		target := &tnode{Root: fc.Root, Data: fc.Data, Entity: fc.Tree.PreOrder()}
+		log, err, p := c06Access(fc.St, target, target, "", access)
+		if p != nil {
+			t.Fatalf("C06 [%s via %s]: panic %v", fc.Desc, access, p)
+		}
+		if err != nil {
+			t.Fatalf("C06 [%s via %s]: fault-free access failed: %v", fc.Desc, access, err)
+		}
+		got := cidSet(log)
+		allowed := cidSet(target.Entity)
+		for _, c := range log {
+			if !allowed[c] {
+				t.Fatalf("C06 [%s via %s]: requested %s which is not a block of the file", fc.Desc, access, c)
+			}
+		}
+		for i, c := range target.Entity[1:] {
+			if !got[c] {
+				t.Fatalf("C06 [%s via %s]: block #%d %s of the file was never requested (%d of %d blocks requested)", fc.Desc, access, i+1, c, len(got), len(target.Entity)-1)
+			}
+		}
+		hasEmpty := false
+		for _, n := range fc.Tree.All() {
+			if len(n.Kids) == 0 && n.Start == n.End {
+				hasEmpty = true
+			}
+		}
+		ev.Case(fc.Writer+" "+access, hasEmpty, "access:"+access, fmt.Sprintf("hasEmptyChunk:%v", hasEmpty))
+		for i, c := range target.Entity[1:] {
+			fc.St.Missing = map[cid.Cid]bool{c: true}
+			_, ferr, p := c06Access(fc.St, target, target, "", access)
+			fc.St.Missing = map[cid.Cid]bool{}
+			if p != nil {
+				t.Fatalf("C06 [%s via %s] block #%d missing: panic %v", fc.Desc, access, i+1, p)
+			}
+			if ferr == nil {
+				t.Fatalf("C06 [%s via %s]: block #%d %s unavailable but the access reported success", fc.Desc, access, i+1, c)
+			}
+			ev.Case(fmt.Sprintf("%s %s fault%d", fc.Writer, access, i), true, "fault")
+		}
+		ev.Sample(map[string]any{"file": fc.Desc, "access": access, "blocks": len(target.Entity)})
+	})
+}
+
+// F12 (fixed): a leading empty chunk is a block of the file too.
+func TestC06_R_F12_LeadingEmptyChunk(t *testing.T) {
+	for _, leaves := range [][]string{{""}, {"", "ab", "cd"}, {"", "", "x"}, {"ab", "", "cd"}, {"ab", "cd", ""}} {
+		m := &mnode{HasData: true, UFS: &ufsFields{Type: 2}}
+		tot := uint64(0)
+		for _, l := range leaves {
+			m.Links = append(m.Links, mlink{Tsize: i64p(int64(len(l))), Child: &mnode{IsRaw: true, Raw: []byte(l)}})
+			m.UFS.BlockSizes = append(m.UFS.BlockSizes, uint64(len(l)))
+			tot += uint64(len(l))
+		}
+		m.UFS.FileSize = &tot
+		st := NewStore()
+		ls := st.LinkSystem()
+		root, err := m.store(st, ls)
+		if err != nil {
+			t.Fatal(err)
+		}
+		ft, _ := st.FileTree(root, 0)
+		pn, _ := loadPlain(ls, root)
+		st.ResetLogs()
+		if _, err := ls.KnownReifiers["unixfs-preload"](lc0, pn, ls); err != nil {
+			t.Fatalf("C06 F12 %q: %v", leaves, err)
+		}
+		got := cidSet(st.ReadLog())
+		for _, c := range ft.PreOrder()[1:] {
+			if !got[c] {
+				t.Fatalf("C06 F12: file with chunks %q: preload never requested block %s", leaves, c)
+			}
+		}
+		st.Missing = map[cid.Cid]bool{sumRaw(nil): true}
+		if _, err := ls.KnownReifiers["unixfs-preload"](lc0, pn, ls); err == nil {
+			t.Fatalf("C06 F12: file with chunks %q: preload succeeded although the empty chunk's block is unavailable", leaves)
+		}
+	}
+}
